@@ -9,3 +9,7 @@ add("C15", "reference-model monitor: per-segment sign-change model on the same s
     "held on the observed detection calls: thousands of sampled curves (random normals, planted exact zeros, flat runs, zero-length segments, first/last-sample zeros), "
     "all directions, refinement 0..10, dedup on/off, max-hits; accuracy and refinement ratios on analytic curves for linear and cubic interpolation",
     "where the statement is silent (tangencies, on-surface samples with a direction filter, last sample) either outcome is accepted; convergence judged by geometric-mean error ratios in a conclusive window")
+add("C19", "brute-force reference monitor: mutual-nearest-neighbour and radius search by enumeration, exact segment-segment distance by candidate enumeration, bitwise delta-v recomputation on every reported connection",
+    "held on the observed backend runs: thousands of cloud pairs (random, clustered, gridded with exact ties, collinear, duplicated, crossing curves, empty) over 9 decades of tolerances and "
+    "tens of thousands of segment pairs in 9 geometric classes incl. exactly and nearly parallel, collinear and zero-length",
+    "ties accepted in either consistent way; labels within 4 ulp of the ballistic threshold accept either; completeness asserted only for strictly mutual pairs clearly inside the thresholds")
